@@ -179,7 +179,11 @@ class SiteTracer:
             if code.co_name == "_apply_instruction_to_branches":
                 self.instr += 1
                 self.deep_count = 0
-            return None
+            if code.co_name != "_validate" or cfn not in _API:
+                return None
+            # Instruction._validate is the hook instruction classes override to refuse their
+            # parameters; the base implementation lives in the API layer, but raising at its entry
+            # is exactly "the instruction's validation raised", so it is a site like any override
         if cfn in _API:
             if not (fn.startswith(_PQ_ROOT) or fn.startswith(_HARNESS)):
                 return None
